@@ -3,7 +3,8 @@
 # Which definitions the model driver runs: "current" = the code as it is (DirectionBoth defect F2
 # reproduced), "fixed" = hooks/C14-fix.patch applied. Flip to "fixed" in the same commit that lands the
 # fix in /repo and moves the four F2 entries of known_findings.json to status "fixed".
-MODEL_MODE = "current"
+import os
+MODEL_MODE = os.environ.get("VERIF_C14_MODE", "current")   # env override only for trying the fix in a scratch worktree
 
 P = "Dawgs.C14.Props."
 THEOREMS = {
@@ -37,6 +38,7 @@ CLASS_KEYS = {
     "tsdfs-both-returns-start": "C14:TSDFS.Pick:DirectionBoth-returns-start",
     "proj-ignores-tombstone": "C14:triplestoreProjection.EachAdjacentEdge:ignores-origin-DeleteEdge",
     "readeach-lost-all-segments": "C14:BFSTreeFile.ReadEach:scans-raw-file-not-gzip-stream",
+    "toseg-index-panic": "C14:SerializedSegment.ToSegment:Edges-index-minus-one-panic",
 }
 
 
@@ -122,7 +124,7 @@ SPEC = {
         "branch.proj.deleted_nodes", "branch.proj.deleted_edges", "branch.proj.nested", "branch.ts.delete_edge",
         "branch.reach.start_on_cycle", "branch.reach.empty", "branch.bfs.distance_ge3", "branch.normalize.am", "branch.normalize.csr",
         "branch.seg.single_node", "branch.tsbfs.both", "branch.tsdfs.in", "branch.traversal.depth_exceeded",
-        "branch.traversal.unbounded_depth", "branch.zone.readeach", "branch.adj1.csr",
+        "branch.traversal.unbounded_depth", "branch.zone.readeach", "branch.adj1.csr", "branch.toseg",
     ],
     "trusted_base": [
         "RoaringBitmap / cardinality.Bitmap64 native Add/Or/Contains/Each (modelled as ascending lists), Go maps, gammazero/deque, encoding/binary, compress/gzip",
